@@ -32,8 +32,9 @@ TRACE_MODULE, TRACE_CFG = "MxIOSpecTrace", "MxIOSpecTrace.cfg"
 TIERS = {
     "quick": dict(mc=["MC_MxIOSpec_quick.cfg", "MC_MxIOSpec_quick1.cfg"], mc_workers=6,
                   random=112, nops=24, mbt=700, mbt_short=3),
-    "thorough": dict(mc=["MC_MxIOSpec_thorough.cfg", "MC_MxIOSpec_thorough1.cfg"], mc_workers=8,
-                     random=4000, nops=40, mbt=40000, mbt_short=3),
+    "thorough": dict(mc=["MC_MxIOSpec_thorough.cfg", "MC_MxIOSpec_thorough1.cfg",
+                         "MC_MxIOSpec_thorough2.cfg"], mc_workers=6,
+                     random=2000, nops=40, mbt=10000, mbt_short=4),
 }
 
 ASSUME = [
@@ -253,6 +254,9 @@ def run_mc(tier, seed):
                 outcomes["%s:%s" % (op["op"], op["res"])] += 1
         r["model_outcomes"] = dict(outcomes)
         r["cfg"] = cfgfile
+        first = open(os.path.join(tlc.SPEC_DIR, cfgfile)).readline().strip()
+        r["instance"] = first.lstrip("\\* ").strip()
+        r["complete_state_space"] = "VIEW ViewU" in open(os.path.join(tlc.SPEC_DIR, cfgfile)).read()
         r["hists"] = hists
         r.pop("out")
         return r
@@ -276,7 +280,7 @@ def pick_histories(mcs, tier, seed):
         rest = [(h, lab) for _, (h, lab) in items if not (len(h) < conf["mbt_short"] or lab)]
         rng.shuffle(rest)
         rng.shuffle(must)
-        quota = conf["mbt"] // len(mcs)
+        quota = conf["mbt"] // max(1, len([x for x in mcs if x["hists"]]))
         chosen = must[:quota * 2 // 3]
         chosen += rest[:max(0, quota - len(chosen))]
         for h, lab in chosen:
@@ -531,8 +535,9 @@ def run(pid, tier, seed):
         "operation_outcomes": dict(outcomes),
         "labels_raised": dict(labels_seen),
         "antecedents": dict(ante),
-        "design_model_check": [{k: r.get(k) for k in ("cfg", "states", "transitions", "depth",
-                                                       "wall_s", "ok", "model_outcomes")}
+        "design_model_check": [{k: r.get(k) for k in ("cfg", "instance", "complete_state_space", "states",
+                                                       "transitions", "depth", "wall_s", "ok",
+                                                       "model_outcomes")}
                                for r in mcs],
         "impl_model_agreement": {
             "traces_without_drift": len(traces) - drift_traces, "traces": len(traces),
